@@ -254,3 +254,69 @@ W["trials_required_for_crossing"] = dict(
                                 for n in range(0, 7) for sc in (1, 2, 3) for st in (0, 1, 2) for sr in (1, 2)),
                 spec_funcs={}),
 )
+
+
+def _gtn_call(f, start, end, b_trial_no, sustain_count):
+    """run the real nested get_variables through Block.get_trial_numbers with a stub block whose only window is [start, end)"""
+    stub = _types.SimpleNamespace(sustain_count=lambda _f: sustain_count, map_block_trial_ranges=lambda wb, proc: [proc(start, end)])
+    from sweetpea._internal.block import Block
+    return Block.get_trial_numbers(stub, None, b_trial_no, None)
+
+
+# Pin (constraints.rst): "a trial index, counting forward from 0 or backward from -1"; under Nest one index stands for a run of
+# `sustain_count` trials.  The closure computes the trial numbers of one repetition window [start, end).
+W["get_trial_numbers.window"] = dict(
+    id="get_trial_numbers.window", target="sweetpea._internal.block:Block.get_trial_numbers.<get_variables>", prop=["C26", "C01"],
+    params={"start": "int", "end": "int"},
+    free_vars={"b_trial_no": "int", "sustain_count": "int"},
+    requires=["0 <= start", "start <= end", "sustain_count >= 1"],
+    ensures=[
+        # forward index: trials start + c*idx ... start + c*idx + c-1, if the first of them lies inside the window
+        "implies(b_trial_no >= 0 and start + sustain_count * b_trial_no < end, len(result) == sustain_count and forall(i, 0, sustain_count, result[i] == start + sustain_count * b_trial_no + i))",
+        "implies(b_trial_no >= 0 and start + sustain_count * b_trial_no >= end, len(result) == 0)",
+        # backward index: -1 is the last run of the window
+        "implies(b_trial_no < 0 and end + sustain_count * b_trial_no >= start, len(result) == sustain_count and forall(i, 0, sustain_count, result[i] == end + sustain_count * b_trial_no + i))",
+        "implies(b_trial_no < 0 and end + sustain_count * b_trial_no < start, len(result) == 0)",
+        "forall(i, 0, len(result), start <= result[i])"],
+    native=dict(call=lambda f, start, end, b_trial_no, sustain_count: _gtn_call(f, start, end, b_trial_no, sustain_count),
+                domain=lambda: ({"start": s, "end": e, "b_trial_no": b, "sustain_count": c} for s in range(0, 4) for e in range(s, s + 7) for b in range(-7, 7) for c in (1, 2, 3))),
+)
+
+# ------------------------------------------------------------------ core/cnf.py: ripple_carry for every width (C12, used by C10)
+# Variable ids are modelled as integers (Var(v) ~ v), the CNF's fresh counter as the ghost F, the truth assignment as an
+# uninterpreted function val: Int -> Bool.  full_adder is used by contract only (its contract is proved on the real method
+# for all inputs by the concolic engine: C12.full_adder.*): it returns (F+1, F+2), advances F by 2 and every assignment that
+# satisfies the clauses it adds satisfies  2*[cout] + [s] == [a] + [b] + [cin].
+_CNF_MACROS = {"L": (["t"], "ite(t > 0, val(t), not val(0 - t))"),
+               "wbit": (["t", "j"], "ite(L(t), pow2(j), 0)"),
+               "bit": (["t"], "ite(L(t), 1, 0)")}
+_FULL_ADDER = dict(
+    params={"a": "int", "b": "int", "cin": "opt[int]"}, ghost_args={"F": "F"},
+    requires=["F >= 0", "a != 0", "abs(a) <= F", "b != 0", "abs(b) <= F", "is_none(cin) or (cin != 0 and abs(cin) <= F)"],
+    returns="tuple[int,int]",
+    ensures=["result[0] == F + 1", "result[1] == F + 2",
+             "2 * bit(result[0]) + bit(result[1]) == bit(a) + bit(b) + ite(is_none(cin), 0, bit(cin))"],
+    ghost_after=["F = F + 2"])
+_RC_SUM = ("sum(j, 0, i, wbit(s_accum[j], j)) + ite(i > 0, wbit(cin, i), 0) == "
+           "sum(j, 0, i, wbit(xs[len(xs) - 1 - j], j)) + sum(j, 0, i, wbit(ys[len(ys) - 1 - j], j))")
+W["ripple_carry"] = dict(
+    id="ripple_carry", target="sweetpea._internal.core.cnf:CNF.ripple_carry", prop=["C12", "C10"],
+    params={"xs": "list[int]", "ys": "list[int]"},
+    ghost={"F": ("int", None)},
+    spec_funcs={"val": (["int"], "bool")},
+    macros=_CNF_MACROS,
+    uses={"self.full_adder": _FULL_ADDER},
+    requires=["F >= 0", "len(xs) == len(ys)", "len(xs) >= 1",
+              "forall(j, 0, len(xs), xs[j] != 0 and abs(xs[j]) <= F and ys[j] != 0 and abs(ys[j]) <= F)"],
+    loops={0: dict(
+        index="i", types={"cin": "opt[int]"},
+        invariant=["len(s_accum) == i", "F == old(F) + 2 * i", "forall(j, 0, i, s_accum[j] == old(F) + 2 * j + 2)",
+                   "iff(is_none(cin), i == 0)", "implies(i > 0, cin == old(F) + 2 * i - 1)", _RC_SUM],
+        hints=["wbit(c, i) + wbit(s, i - 1) == wbit(x, i - 1) + wbit(y, i - 1) + ite(i > 1, wbit(pre(cin), i - 1), 0)",
+               "sum(j, 0, i - 1, wbit(s_accum[j], j)) == pre(sum(j, 0, i, wbit(s_accum[j], j)))"])},
+    ensures=["result[0] == old(F) + 2 * len(xs) - 1", "len(result[1]) == len(xs)",
+             "forall(j, 0, len(xs), result[1][j] == old(F) + 2 * j + 2)", "F == old(F) + 2 * len(xs)",
+             # the documented sum: little-endian value of the sum bits plus the carry-out equals the big-endian inputs' sum
+             "sum(j, 0, len(xs), wbit(result[1][j], j)) + wbit(result[0], len(xs)) == "
+             "sum(j, 0, len(xs), wbit(xs[len(xs) - 1 - j], j)) + sum(j, 0, len(xs), wbit(ys[len(ys) - 1 - j], j))"],
+)
